@@ -21,6 +21,11 @@ COQ = os.path.join(ROOT, "coq")
 THEORIES = os.path.join(COQ, "theories")
 REPO = os.environ.get("VERIF_REPO", "/repo")
 REPO_SRC = os.path.join(REPO, "src")
+# from the first import on, `import uberjob` resolves to the tree under test (not to PYTHONPATH's /repo/src when VERIF_REPO is set,
+# never to the copy installed in the venv)
+while REPO_SRC in sys.path:
+    sys.path.remove(REPO_SRC)
+sys.path.insert(0, REPO_SRC)
 # evidence/ describes /repo itself; a run against a scratch copy (VERIF_REPO, used to try seeded changes) writes elsewhere
 EVID = os.path.join(ROOT, "evidence") if "VERIF_REPO" not in os.environ else \
     os.path.join(ROOT, "build", "scratch-evidence", re.sub(r"[^A-Za-z0-9]+", "_", os.environ["VERIF_REPO"]).strip("_"))
